@@ -1042,6 +1042,7 @@ static uint32_t run_probe(CodeHolder& code, BaseEmitter* em, BaseEmitter* ser, c
   Ctx c(code, em, sp.kind, sp.arch, sp.seed, sp.pfx);
   Label marker;
   if (sp.append) {
+    T(em->section(code.text_section()));   // (an assembler that was the target of serialize_to() stands in the LAST serialized section)
     T(em->align(AlignMode::kCode, 64));
     marker = em->new_label();
     T(em->bind(marker));
@@ -1682,7 +1683,7 @@ static void make_history(uint64_t seed, uint64_t idx, HistCfg& hc, std::vector<S
 
 struct ChildResult { std::vector<std::string> ids, whats; bool has(const std::string& id) const { return std::find(ids.begin(), ids.end(), id) != ids.end(); } };
 static bool g_child_quiet = true;
-static unsigned g_hang_seconds = 20;
+static unsigned g_hang_seconds = 10;
 
 static ChildResult run_in_child(const HistCfg& hc, const std::vector<Step>& S) {
   ChildResult cr;
@@ -1769,7 +1770,7 @@ int main(int argc, char** argv) {
   Args args(argc, argv);
   uint64_t seed = args.u64("seed", 1), nh = args.u64("histories", 100), first = args.u64("first", 0);
   g_dump = args.has("dump"); g_neutralize = args.has("neutralize") || getenv("VERIF_C16_NEUTRALIZE") != nullptr;
-  g_hang_seconds = unsigned(args.u64("hang-seconds", 20));
+  g_hang_seconds = unsigned(args.u64("hang-seconds", 10));
   g_devnull = fopen("/dev/null", "w");
   setvbuf(stderr, nullptr, _IOLBF, 0);
 
@@ -1791,7 +1792,7 @@ int main(int argc, char** argv) {
     std::string what;
     for (size_t i = 0; i < fin.ids.size(); i++) if (fin.ids[i] == target) what = fin.whats[i];
     std::string others;
-    for (auto& id : fin.ids) if (id != target) others += id + " ";
+    for (auto& id : fin.ids) if (id != target && others.find(id + " ") == std::string::npos) others += id + " ";
     std::string key = !found ? "" : target + "|" + history_str(hc, S, false);
     printf("{\"mode\":\"shrink\",\"idx\":%llu,\"cls\":%s,\"key\":%s,\"what\":%s,\"also\":%s,\"minimal\":%s,\"original\":%s,\"steps_before\":%zu,\"steps_after\":%zu,\"attempts\":%llu}\n",
            (ull)idx, jstr(found ? target : "none").c_str(), jstr(key).c_str(), jstr(what).c_str(), jstr(others).c_str(), jstr(history_str(hc, S, true)).c_str(),
